@@ -23,9 +23,14 @@ theorem normTerms_sum (α : Assign) (ts : List (Int × Int)) (v : Int)
       rw [litHolds_neg α l hl]
       have := ih' (v + -c)
       by_cases hh : litHolds α l <;> simp [hh] <;> omega
-    · simp only [hc, if_false, pbSum_cons]
-      have := ih' v
-      by_cases hh : litHolds α l <;> simp [hh] <;> omega
+    · by_cases hz : c = 0
+      · simp only [hc, if_false, hz, if_true, pbSum_cons]
+        have := ih' v
+        subst hz
+        by_cases hh : litHolds α l <;> simp [hh] <;> omega
+      · simp only [hc, if_false, hz, pbSum_cons]
+        have := ih' v
+        by_cases hh : litHolds α l <;> simp [hh] <;> omega
 
 theorem normTerms_nonneg (ts : List (Int × Int)) (v : Int) :
     ∀ t ∈ (normTerms ts v).1, 0 ≤ t.1 := by
@@ -40,32 +45,36 @@ theorem normTerms_nonneg (ts : List (Int × Int)) (v : Int) :
       rcases List.mem_cons.1 ht with rfl | ht
       · simp; omega
       · exact ih _ t ht
-    · simp only [hc, if_false]
-      intro t ht
-      rcases List.mem_cons.1 ht with rfl | ht
-      · simp; omega
-      · exact ih _ t ht
+    · by_cases hz : c = 0
+      · simp only [hc, if_false, hz, if_true]
+        exact ih _
+      · simp only [hc, if_false, hz]
+        intro t ht
+        rcases List.mem_cons.1 ht with rfl | ht
+        · simp; omega
+        · exact ih _ t ht
 
-theorem normTerms_pos (ts : List (Int × Int)) (v : Int) (hz : ∀ t ∈ ts, t.1 ≠ 0) :
+theorem normTerms_pos (ts : List (Int × Int)) (v : Int) :
     ∀ t ∈ (normTerms ts v).1, 0 < t.1 := by
   induction ts generalizing v with
   | nil => simp [normTerms]
   | cons t ts ih =>
     obtain ⟨c, l⟩ := t
-    have hc0 : c ≠ 0 := hz (c, l) (by simp)
-    have ih' := fun v => ih v (fun t ht => hz t (by simp [ht]))
     unfold normTerms
     by_cases hc : c < 0
     · simp only [hc, if_true]
       intro t ht
       rcases List.mem_cons.1 ht with rfl | ht
       · simp; omega
-      · exact ih' _ t ht
-    · simp only [hc, if_false]
-      intro t ht
-      rcases List.mem_cons.1 ht with rfl | ht
-      · simp; omega
-      · exact ih' _ t ht
+      · exact ih _ t ht
+    · by_cases hz : c = 0
+      · simp only [hc, if_false, hz, if_true]
+        exact ih _
+      · simp only [hc, if_false, hz]
+        intro t ht
+        rcases List.mem_cons.1 ht with rfl | ht
+        · simp; omega
+        · exact ih _ t ht
 
 theorem normTerms_lits_ne (ts : List (Int × Int)) (v : Int) (h : ∀ t ∈ ts, t.2 ≠ 0) :
     ∀ t ∈ (normTerms ts v).1, t.2 ≠ 0 := by
@@ -82,11 +91,14 @@ theorem normTerms_lits_ne (ts : List (Int × Int)) (v : Int) (h : ∀ t ∈ ts, 
       rcases List.mem_cons.1 ht with rfl | ht
       · simp; omega
       · exact ih' _ t ht
-    · simp only [hc, if_false]
-      intro t ht
-      rcases List.mem_cons.1 ht with rfl | ht
-      · simpa using hl
-      · exact ih' _ t ht
+    · by_cases hz : c = 0
+      · simp only [hc, if_false, hz, if_true]
+        exact ih' _
+      · simp only [hc, if_false, hz]
+        intro t ht
+        rcases List.mem_cons.1 ht with rfl | ht
+        · simpa using hl
+        · exact ih' _ t ht
 
 theorem pbSum_map_neg (α : Assign) (ts : List (Int × Int)) :
     pbSum α (ts.map (fun t => (-t.1, t.2))) = - pbSum α ts := by
